@@ -26,7 +26,7 @@ EXTENDS RingMerge, Json
 
 CONSTANTS TsSet, LiveSt,
           MaxUpd,     \* a delivered update mentions at most MaxUpd instances
-          MaxClock,   \* the replica's clock runs 1..MaxClock
+          Clock0, MaxClock,   \* the replica's clock runs Clock0..MaxClock
           ThinK, ThinR \* of the transitions that resolve a collision, those numbered ThinR modulo ThinK are
                       \* emitted as behaviours for the harness as well (ThinK = 0: none)
 
@@ -73,8 +73,8 @@ Tick == /\ clock < MaxClock
         /\ UNCHANGED d
 
 Init == /\ d = Empty
-        /\ clock = 1
-        /\ last = [act |-> "Init", other |-> Empty, cas |-> FALSE, now |-> 1, pre |-> Empty, resolved |-> FALSE]
+        /\ clock = Clock0
+        /\ last = [act |-> "Init", other |-> Empty, cas |-> FALSE, now |-> Clock0, pre |-> Empty, resolved |-> FALSE]
         /\ hist = <<>>
 
 Next == \/ \E o \in Updates : Deliver(o)
@@ -86,7 +86,7 @@ Spec == Init /\ [][Next]_vars
 
 ---------------------------------------------------------------------------
 TypeOK == /\ d \in [Inst -> [ts : Nat, state : LiveStates \cup {"LEFT", "ABSENT"}, toks : SUBSET Pos]]
-          /\ clock \in 1..MaxClock
+          /\ clock \in Clock0..MaxClock
 
 InvTokenUnique     == TokenUnique(d)
 InvLeftHasNoTokens == LeftHasNoTokens(d)
